@@ -120,10 +120,12 @@ def replay(chk, nd, seed):
     return summary
 
 
-def trace_validate(chk, name, trace_path, what):
+def trace_validate(chk, name, trace_path, what, inv_every=None):
     """impl -> spec: TLC explains the recorded trace with Trace_Conn or rejects it."""
     env = {"TRACE": trace_path}
-    if chk.tier == "thorough":
+    if inv_every:
+        env["INV_EVERY"] = str(inv_every)
+    elif chk.tier == "thorough":
         env["INV_EVERY"] = "8"      # large traces: invariants at every 8th event, at every session end and at the end
     r = tlc("Trace_Conn", os.path.join(SPEC, "Trace_Conn.cfg"), name, workers=1, env=env, timeout=3000, trace_mode=True)
     chk.add_tlc(name, r)
@@ -408,10 +410,10 @@ def net_replay(chk, nd, seed, stride=1):
     return summary
 
 
-def gen_net_trace(name, transport, seed, sessions, nbytes, writes=True):
+def gen_net_trace(name, transport, seed, sessions, nbytes, writes=True, burst=0):
     p = os.path.join(WORK, name + ".ndjson")
     out = harness(["net-trace", "--transport", transport, "--out", p, "--seed", str(seed), "--sessions", str(sessions),
-                   "--bytes", str(nbytes), "--writes", "1" if writes else "0"], timeout=3000)
+                   "--bytes", str(nbytes), "--writes", "1" if writes else "0", "--burst", str(burst)], timeout=3000)
     return p, json.loads(out.strip().splitlines()[-1])
 
 
@@ -459,4 +461,12 @@ def check_C20(chk):
         if i == 0:
             sample_trace(chk, p, 10)
         trace_validate(chk, f"c20_tv{i}", p, "websocket session")
+    # write side under back pressure: small frames and frames of the mode's maximum written back to back while the relay does
+    # not read until the writer stalls; every message the relay finally received is a Unit event: one per written frame, in
+    # order, none twice, none missing
+    p, info = gen_net_trace("c20_burst", "ws", chk.seed * 100 + 50, sessions=0, nbytes=100, writes=False, burst=3000 if thorough else 400)
+    chk.extra["burst"] = info
+    if info.get("burst_stalls", 0) == 0:
+        chk.assumptions += ["the back-pressure burst did not stall the writer on this run (socket buffers absorbed it): the burst trace then only shows ordering"]
+    trace_validate(chk, "c20_burst_tv", p, "websocket burst under back pressure", inv_every=25)
     chk.assumptions += ["the relay is a loopback tokio-tungstenite server; the real relay (Internet) is not exercised"]
